@@ -11,7 +11,7 @@ from ..norm import Normalizer, Poly, NormError
 from .c05 import (entails, alts_bool, _neg, _show, pseudo_asserting, pseudo_nodes, canon, canon_chain,
                   enclosing_loops, _handler_types, _catches_exceptions)
 from ..model import FuncInfo
-from ._kit_c07 import (sem_equiv, sem_implies, sem_satisfiable, atoms_of, project_away, forms_of, rename_atoms, write_values, returned_elements, reach_dnf, path_conditions, Undecided, ConsistentWalk, flag_locals, constant_env,
+from ._kit_c07 import (sem_equiv, sem_implies, sem_satisfiable, atoms_of, project_away, forms_of, rename_atoms, write_values, returned_elements, reach_dnf, path_conditions, Undecided, ConsistentWalk, flag_locals, constant_env, ConstNormalizer,
                        PathExpander as Expander)
 
 R = Rules(
@@ -61,8 +61,9 @@ class _Roles:
 
 def _normalizer(prog, fi):
     """normal forms in which the named numeric constants the function reads (module level, class level) are their values"""
-    env, chain_env = constant_env(prog, fi)
-    return Normalizer(env=env, chain_env=chain_env)
+    expr_env = {}
+    env, chain_env = constant_env(prog, fi, expr_env=expr_env)
+    return ConstNormalizer(env=env, chain_env=chain_env, expr_env=expr_env)
 
 
 def _assign_target(cfg, node):
@@ -1367,6 +1368,61 @@ def h_shared(ctx):
 
 
 # ---------------------------------------------------------------------------
+# C07.j  a token is never handed out a second time
+
+TOKEN_SOURCE = "tokenmanager.TokenManager.next_token"
+
+
+@R.clause("C07.j", "notifications that arrive after the end of an observation are rejected like unknown responses only if their token is not given to a later request: everything next_token hands out is minted from its own counter state; no value that is or was a token (a drawn token, <message>.token, a key of the request tables) is returned by it or stored in a field it draws from")
+def j_token_provenance(ctx):
+    """An invariant over ALL writers of the state the token source reads, not over the source's text: whatever
+    fields the returned values are computed from (today: the counter), every store into them anywhere in the
+    package -- assignment, subscript store, filling method, method value bound by functools.partial, through an
+    alias, in a closure or lambda -- must store a value that carries no token.  Counter arithmetic, random seeds,
+    itertools.count objects and the like carry none and are accepted whatever their spelling (how the counter
+    advances is C02.d's business); a free list / cache / table of used tokens does, however it is filled."""
+    from ._kit_c07 import TokenProvenance
+    prog = ctx.prog
+    fi = prog.func(TOKEN_SOURCE)
+    tp = TokenProvenance(prog, fi)
+    ctx.floor("places where a drawn token is stored (msg.token = self.next_token())", len(tp.mint_sites), 1)
+    ctx.need(bool(tp.token_attrs), "no attribute receives the tokens drawn from next_token; the rule cannot tell which values are tokens")
+    ctx.note("token attributes: %s; fields holding tokens: %s" % (sorted(tp.token_attrs), sorted(tp.tainted_fields)))
+    rets = returned_elements(fi)
+    ctx.need(rets is not None and all(isinstance(r, ast.Return) for r, _v in rets), "next_token: some way through it returns nothing")
+    drawn_from = set()
+    for r, v in rets:
+        w = tp.tainted(fi, v)
+        ctx.ob("the token handed out is newly minted, not one that is or was in use", w is None, fi, r, detail=w)
+        drawn_from |= tp.fields_read(fi, v)
+    ctx.need(bool(drawn_from), "next_token: the token is computed from no state of the token manager; the rule does not know this kind of source")
+    ctx.note("next_token draws from: %s" % sorted(drawn_from))
+    n = 0
+    for F in sorted(drawn_from):
+        for fn, hits in sorted(field_writers(prog, F).items()):
+            wfi = prog.funcs["aiocoap." + fn]
+            for kind, node in hits:
+                n += 1
+                w = tp.any_tainted(wfi, tp.stored_values(wfi, kind, node))
+                ctx.ob("nothing that is or was a token is put where next_token draws its tokens from", w is None, wfi, node,
+                       detail=w, construct="%s  [feeds %s]" % (stmt_text(node), F))
+    # the same store spelled setattr(obj, "<field>", value): not a store in the engine's vocabulary
+    for wfi in prog.funcs.values():
+        for c in walk_with_lambdas(wfi.node):
+            if isinstance(c, ast.Call) and isinstance(c.func, ast.Name) and c.func.id == "setattr" and len(c.args) == 3 and not c.keywords:
+                nm = c.args[1]
+                if isinstance(nm, ast.Constant) and isinstance(nm.value, str):
+                    if nm.value in drawn_from:
+                        n += 1
+                        w = tp.any_tainted(wfi, [c.args[2]])
+                        ctx.ob("nothing that is or was a token is put where next_token draws its tokens from", w is None, wfi, c,
+                               detail=w, construct="%s  [feeds %s]" % (stmt_text(c), nm.value))
+                else:
+                    ctx.need(wfi.module is not fi.module, "%s sets an attribute whose name is computed (%s); it may be state next_token draws from" % (wfi.short, stmt_text(c)))
+    ctx.floor("writers of the state next_token draws from", n, 1)
+
+
+# ---------------------------------------------------------------------------
 # C07.i  the end of a CoAP-over-TCP/TLS connection reaches the token manager's error fan-out
 
 TCP_MOD = "transports.tcp"
@@ -1664,3 +1720,8 @@ R.seed("C07.i", F_TCP, "        self._ctx._dispatch_error(self, exc)\n", "      
 R.seed("C07.i", F_TCP, "                    self._ctx._dispatch_error(self, e.args[0])\n                    self._transport.close()\n", "                    self.log.info(\"Peer is leaving: %s\", e)\n", "Release / Abort neither reported nor followed by a close")
 R.seed("C07.i", F_TCP, "        self._tokenmanager.dispatch_error(exc, connection)\n", "        self._tokenmanager.dispatch_error(exc, self)\n", "error reported for the pool instead of the connection: matches no request")
 R.seed("C07.i", F_TCP, "        # FIXME: return true and initiate own shutdown if that is what CoAP prescribes\n        pass\n", "        # FIXME: return true and initiate own shutdown if that is what CoAP prescribes\n        return True\n", "half-open transport: connection_lost never comes after the peer's FIN")
+
+# seeds for C07.j (provenance of the tokens handed out)
+R.seed("C07.j", F_TM, "        self._token = (self._token + 1) % (2**64)\n", "        for t, _r in self.outgoing_requests:\n            if len(t) < 2:\n                return t\n        self._token = (self._token + 1) % (2**64)\n", "a short token of a request still in flight is handed out again")
+R.seed("C07.j", F_TM, "        if final:\n            self.outgoing_requests.pop(key)\n", "        if final:\n            self.outgoing_requests.pop(key)\n            self._token = int.from_bytes(key[0], \"big\") - 1\n", "counter rewound to the token of the exchange that just ended: the next request gets it at once, late notifications match it")
+R.seed("C07.j", F_TM, "            functools.partial(self.outgoing_requests.pop, key, None)\n        )\n", "            functools.partial(self.outgoing_requests.pop, key, None)\n        )\n        request.on_interest_end(lambda t=msg.token: setattr(self, \"_token\", int.from_bytes(t, \"big\") - 1))\n", "token of an ended exchange recycled through a hook")
